@@ -11,6 +11,7 @@ from ..astutil import (call_name, calls_in, const_str, dotted, func_params,
 from ..cfg import CFG
 from ..guards import conditions_at, from_early_exit
 from ..loader import AnchorError, Undecided
+from ..symres import Resolver
 from ..scale import INV, LIN, S, Interp, first_err, first_top, flat, is_inv
 
 EXPLANATION = (
@@ -125,6 +126,22 @@ def r1_affine_invariance(ctx):
               "selected by an invariant index",
               "compute_preproc_clip_approach does not return a part of the "
               "force selected independently of its scale")
+    # ... on every path: only the part *before* the force maximum
+    from ..symres import Resolver
+    Rca = Resolver(ca)
+    for r_ in [r for r in walk_no_nested(ca, False)
+               if isinstance(r, ast.Return)]:
+        v_ = Rca.resolve(r_.value) if r_.value is not None else None
+        sliced = isinstance(v_, ast.Subscript) and isinstance(
+            v_.slice, ast.Slice) and v_.slice.lower is None and \
+            v_.slice.upper is not None and "argmax(" in norm(v_.slice.upper)
+        ctx.check(sliced, r_, f"returns {norm(v_)[:50] if v_ is not None else None}",
+                  "compute_preproc_clip_approach can return more than the "
+                  "part before the force maximum (e.g. the whole array when "
+                  "the maximum is the first sample): estimators then see "
+                  "retract-only / constant data instead of an empty array "
+                  "and raise or return an index instead of the centre "
+                  "fallback")
     uses_argmax = any(call_name(c) in ("np.argmax", "numpy.argmax")
                       for c in calls_in(ca))
     ctx.check(uses_argmax, ca, "only the part before the force maximum",
@@ -337,6 +354,59 @@ def r3_degenerate_guards(ctx):
                 continue
             if not ok and unguarded is None:
                 unguarded = c
+        # "first True" of a mask (np.argmax(mask) / np.where(mask)[0][0])
+        # needs a test that the mask has a True entry at all
+        Rm = Resolver(f)
+        for c in calls_in(f):
+            short = (call_name(c) or "").split(".")[-1]
+            if short not in ("argmax", "where", "flatnonzero", "nonzero") \
+                    or not c.args:
+                continue
+            a0 = c.args[0]
+            base = a0
+            while isinstance(base, ast.Subscript):
+                base = base.value
+            if not isinstance(base, ast.Name):
+                continue
+            bv = Rm.resolve(base)
+            if not isinstance(bv, ast.Compare):
+                continue            # not a boolean mask
+            if short != "argmax":
+                # where(mask)[0][0]: only when the first element is taken
+                par = getattr(c, "_parent", None)
+                gp = getattr(par, "_parent", None)
+                if not (isinstance(par, ast.Subscript) and isinstance(
+                        gp, ast.Subscript)):
+                    continue
+            n_red += 1
+            conds = conditions_at(c)
+            ok = any(a.pol and base.id in a.text and any(
+                k in a.text for k in ("np.sum(", "np.any(", ".any()",
+                                      ".sum()", "count_nonzero("))
+                for a in conds)
+            if not ok and short == "argmax":
+                # post-check idiom: i = np.argmax(mask); if mask[i]: use i
+                par = getattr(c, "_parent", None)
+                if isinstance(par, ast.Assign) and isinstance(
+                        par.targets[0], ast.Name) and isinstance(
+                        a0, ast.Name):
+                    iv = par.targets[0].id
+                    probe = f"{a0.id}[{iv}]"
+                    uses = [u for u in walk_no_nested(f, False)
+                            if isinstance(u, ast.Name) and u.id == iv
+                            and isinstance(u.ctx, ast.Load)
+                            and norm(getattr(u, "_parent", u)) != probe]
+                    ok = bool(uses) and all(any(
+                        a.pol and a.text == probe
+                        for a in conditions_at(u)) for u in uses)
+            ctx.check(ok, c, f"{ident}: first True of `{base.id}` only if "
+                      "there is one",
+                      f"estimator '{ident}' takes the first True of the mask "
+                      f"`{base.id}` without testing that the mask has any "
+                      f"True entry: for an all-False mask np.argmax returns "
+                      f"0 (an index next to the force maximum is returned "
+                      f"instead of NaN -> centre) or np.where(...)[0][0] "
+                      f"raises IndexError")
         if unguarded is not None:
             ctx.fail(unguarded, f"{ident}: {norm(unguarded)[:50]} without a "
                      "size guard",
